@@ -1513,7 +1513,7 @@ func main() {
 	if run.Thorough() {
 		exhaustive()
 	}
-	n := run.Scale(1600, 20000)
+	n := run.Scale(1600, 16000)
 	if os.Getenv("C09_ONLY_EXHAUSTIVE") != "" { // manual testing aid
 		n = 0
 	}
